@@ -135,6 +135,9 @@ T = {
     "C18-m6-daz-dropped-when-fz-given": ("`elif DAZ is not None` hanging off the FZ block", "one context given both FZ and DAZ", True, ""),
     "C18-m7-modify-hoisted-to-creation-time": ("context computes its new value at creation time", "a context created in one register state and entered in another", True, ""),
     "C18-m8-set-stub-clears-denormal-flag": ("the ldmxcsr stub clears the sticky denormal flag first", "DE flag set on entry; whole-register comparison", False, "C18 compares the whole register (sticky status flags taken over from the hardware after each probe)"),
+    "C17-m3-two-over-pi-working-precision-1064": ("get_two_over_pi_multiword: float64 working precision 1074 -> 1064", "float64, |x| above 2^1003, moderately small remainder (near-multiples of pi/2)", True, ""),
+    "C17-m4-two-over-pi-max-length-49": ("argument_reduction_trigonometric_impl caps the float64 2/pi multiword at 49 words", "float64, top three binades, x within 1e-4 of a multiple of pi/2", True, ""),
+    "C17-m5-mul-mw-mod4-drops-last-antidiagonals": ("mul_mw_mod4 loop bound drops the last two anti-diagonals", "float64, top binades, x within 1e-5 of a multiple of pi/2 with large low mantissa bits", True, ""),
 }
 
 
